@@ -305,10 +305,17 @@ uint64_t cmb_timeseries_copy(struct cmb_timeseries *tgt,
         tgt->ta = NULL;
     }
 
+    /*
+     * Room for as many samples as the copied data array (cursize, like
+     * cmb_dataset_copy above), so that the copy can take more samples: adding
+     * to it only expands when count reaches cursize.
+     */
     const uint64_t csz = dsp_src->count;
+    const uint64_t asz = dsp_src->cursize;
     if (src->ta != NULL) {
         cmb_assert_debug(csz > 0u);
-        tgt->ta = cmi_calloc(csz, sizeof *(tgt->ta));
+        cmb_assert_debug(csz <= asz);
+        tgt->ta = cmi_calloc(asz, sizeof *(tgt->ta));
         cmi_memcpy(tgt->ta, src->ta, csz * sizeof *(tgt->ta));
     }
 
@@ -319,7 +326,7 @@ uint64_t cmb_timeseries_copy(struct cmb_timeseries *tgt,
 
     if (src->wa != NULL) {
         cmb_assert_debug(csz > 0u);
-        tgt->wa = cmi_calloc(csz, sizeof *(tgt->wa));
+        tgt->wa = cmi_calloc(asz, sizeof *(tgt->wa));
         cmi_memcpy(tgt->wa, src->wa, csz * sizeof *(tgt->wa));
     }
 
